@@ -6,6 +6,7 @@ import (
 	"fmt"
 	"math/big"
 	"net/netip"
+	"reflect"
 	"sort"
 	"strings"
 	"testing"
@@ -25,6 +26,15 @@ type c06Obs struct {
 	reason            int
 	canon             string
 	ips               []netip.Addr
+	covered           bool // Result.CanonNameRewritten (fix 2e58a5d)
+}
+
+// c06Covered reads Result.CanonNameRewritten by name, so that the harness
+// still builds against a tree without the field (a revert of 2e58a5d: the
+// flag is then never set, and the model disagrees on a concrete table).
+func c06Covered(r Result) bool {
+	f := reflect.ValueOf(r).FieldByName("CanonNameRewritten")
+	return f.IsValid() && f.Kind() == reflect.Bool && f.Bool()
 }
 
 // c06Call runs f under a watchdog.
@@ -61,6 +71,7 @@ func c06Call(deadline time.Duration, f func() Result) (o c06Obs) {
 		}
 		o.canon = r.res.CanonName
 		o.ips = append(o.ips, r.res.IPList...)
+		o.covered = c06Covered(r.res)
 		return o
 	case <-timer.C:
 		return c06Obs{timeout: true}
@@ -102,7 +113,11 @@ func (o c06Obs) coq() string {
 		ips[i] = c06IP(a)
 	}
 	sort.Strings(ips)
-	return fmt.Sprintf("(Res %d %s %s)", o.reason, c06Str(o.canon), c06List(ips))
+	ctor := "Res"
+	if o.covered {
+		ctor = "ResC"
+	}
+	return fmt.Sprintf("(%s %d %s %s)", ctor, o.reason, c06Str(o.canon), c06List(ips))
 }
 
 func c06IsWild(p string) bool { return len(p) > 1 && p[0] == '*' && p[1] == '.' }
